@@ -7,7 +7,7 @@
    created by the latest underlying OpenDB(name).  Histories are by-name: Close/Drop go to the
    handle most recently returned for the name. *)
 From Coq Require Import NArith List Bool.
-From LV Require Import model.CachedProducer spec.CachedProducerSpec proofs.CachedProducerProofs.
+From LV Require Import model.CachedProducer spec.CachedProducerSpec proofs.CachedProducerProofs proofs.CachedProducerOnce.
 Import ListNotations.
 Local Open Scope N_scope.
 
@@ -45,6 +45,15 @@ Theorem C27_close_underlying_exactly_at_last_close :
               (1 < balance name pre -> r = ROk /\ ev = [])
   end.
 Proof. exact close_cases. Qed.
+
+(* ... and no underlying store is ever closed twice ([closes] = the store ids of all underlying
+   Close calls of the trace, in order); store ids are produced by one underlying open each, and
+   only opened stores are closed.  With the theorem above: closed exactly once, at the last close. *)
+Theorem C27_each_store_closed_at_most_once :
+  forall s0 ops, s0 = wrap \/ s0 = wrap_all -> forallb by_name_op ops = true ->
+  NoDup (closes (snd (crun s0 ops))) /\ NoDup (map snd (uopens (snd (crun s0 ops)))) /\
+  (forall u, In u (closes (snd (crun s0 ops))) -> exists n, In (n, u) (uopens (snd (crun s0 ops)))).
+Proof. exact closes_once_all_histories. Qed.
 
 Theorem C27_over_close_touches_nothing :
   forall s u name, count_of name s = 0 -> close_h u name s = (s, ROverClose, []).
@@ -87,6 +96,7 @@ Print Assumptions C27_trace_spec_all_histories.
 Print Assumptions C27_open_while_open_returns_same_store.
 Print Assumptions C27_open_when_closed_opens_underlying_once.
 Print Assumptions C27_close_underlying_exactly_at_last_close.
+Print Assumptions C27_each_store_closed_at_most_once.
 Print Assumptions C27_over_close_touches_nothing.
 Print Assumptions C27_drop_reaches_underlying_iff_droppable.
 Print Assumptions C27_not_droppable_again_before_next_open.
